@@ -214,6 +214,10 @@ class C14(Property):
         "Flatland.C14.Proofs.find_print_cancel",
         "Flatland.C14.Proofs.denote_sorted",
         "Flatland.C14.Proofs.find_sorted",
+        "Flatland.C14.Proofs.lax_never_raises",
+        "Flatland.C14.Proofs.find_lax_never_lookup",
+        "Flatland.C14.Proofs.strict_ok_eq_lax",
+        "Flatland.C14.Proofs.no_names_never_raises",
     ]
     generated_obligations = []
     trusted_base = [
